@@ -100,7 +100,26 @@ func gen(g *mon.Gen) {
 	}
 }
 
-func mkSchedule(rng *rand.Rand, reply []byte, kind string, E int) (xport.Script, string) {
+func mkSchedule(rng *rand.Rand, reply []byte, kind string, E int, serial bool) (xport.Script, string) {
+	s, d := mkSchedule0(rng, reply, kind, E)
+	// the empty reads between fragments spelled the ways transports spell them: the bare deadline sentinel, the sentinel
+	// inside a wrapping error, and for a serial port zero bytes without an error or io.EOF
+	if rng.Intn(2) == 0 {
+		kinds := []string{"deadline", "deadline-wrapped"}
+		if serial {
+			kinds = []string{"deadline", "deadline-wrapped", "", "eof", "eof-wrapped"}
+		}
+		for i := range s.Steps {
+			if s.Steps[i].N == 0 && s.Steps[i].Err == "deadline" {
+				s.Steps[i].Err = kinds[rng.Intn(len(kinds))]
+			}
+		}
+		d += "/empty-read-flavours"
+	}
+	return s, d
+}
+
+func mkSchedule0(rng *rand.Rand, reply []byte, kind string, E int) (xport.Script, string) {
 	L := len(reply)
 	if kind == "frag" {
 		var cuts []int
@@ -191,7 +210,7 @@ func run(ci any, r *mon.Rec) {
 		rt = 20 * time.Millisecond
 	}
 	for i := 0; i < c.N; i++ {
-		script, desc := mkSchedule(rng, reply, c.Kind, E)
+		script, desc := mkSchedule(rng, reply, c.Kind, E, c.Client == clientx.Serial)
 		clk := &xport.Clock{}
 		h := &recHooks{clk: clk}
 		opt := clientx.Options{ReadTimeout: rt, Hooks: h, Clock: clk, Flusher: i%2 == 0}
@@ -204,7 +223,7 @@ func run(ci any, r *mon.Rec) {
 		// or a clean exchange: hooks must not see anything left over from the earlier call
 		var with, without clientx.Outcome
 		if i%3 == 2 {
-			warm, _ := mkSchedule(rng, reply, []string{"frag", "fault"}[rng.Intn(2)], E)
+			warm, _ := mkSchedule(rng, reply, []string{"frag", "fault"}[rng.Intn(2)], E, c.Client == clientx.Serial)
 			if rng.Intn(2) == 0 { // exception reply to the same request
 				ex := specref.Resp{FC: c.FC, Unit: reply[map[bool]int{true: 6, false: 0}[clientx.FramingOf(c.Client) == specref.TCP]], TID: uint16(reply[0])<<8 | uint16(reply[1]), Exception: true, ExCode: 2}.Encode(clientx.FramingOf(c.Client))
 				warm = xport.Script{Reply: ex, Steps: xport.Cuts(len(ex), nil, 0), Tail: "deadline"}
@@ -278,7 +297,7 @@ func run(ci any, r *mon.Rec) {
 				want := tr[k]
 				got := hr[k]
 				gotErr := got.Err
-				if !(bytes.Equal(got.Data, want.Data) && got.N == want.N && sameErr(gotErr, want.Err)) {
+				if !(bytes.Equal(got.Data, want.Data) && got.N == want.N && gotErr == want.ErrText) {
 					r.Violate(c, "after-read-args", a, fmt.Sprintf("%s: read #%d returned n=%d err=%q bytes %x; hook got n=%d err=%q bytes %x", ctx, k, want.N, want.Err, want.Data, got.N, got.Err, got.Data))
 					break
 				}
